@@ -198,7 +198,8 @@ def main(tier, replay):
                input_distribution=classes, oracle_passes=passes, model_mismatches=len(mism), oracle_failures=len(pfails),
                stress_rounds=[" ".join(s) for s in stress],
                scheduler_script_actions=script_stats.get("edges", 0),
-               consumer_commit_actions=consumer_stats.get("edges", 0))
+               consumer_commit_actions=consumer_stats.get("edges", 0),
+               slot_predictions=stats.get("slot_predictions", 0) + script_stats.get("slot_predictions", 0) + consumer_stats.get("slot_predictions", 0))
     rc = v.finish()
     vlib.write_evidence(PID, cov, t0, violations=len(v.violations), level="proof",
                         assumptions=["keys of one Lock are distinct (txn.go passes the mutation keys of a memdb)", "byte order of the driver's keys = order of key ids",
